@@ -70,7 +70,7 @@ def render(s, ind, out, naked=False):
     elif k == 'use':
         vs = s[1]
         if vs:
-            out.append(pad + "%s = %s;" % (vname(vs[0]), expr_src(vs)))
+            out.append(pad + "%s = %s;" % (vname(vs[0]), expr_src(vs[1:] if len(vs) > 1 else vs)))
         else:
             out.append(pad + "nop();")
     elif k == 'if':
